@@ -18,7 +18,7 @@ const paginationPkg = "mod/internal/pagination"
 
 // C16: pagination links are real, same-site, fetchable URLs.
 func C16(p *core.Program, r *core.Report) {
-	r.Explanation = "Sink sanitisation. Q1 (PrevNext): the only append to the candidate list is unreachable once the `ParseRequestURI(href) succeeded` edge or the `href has the scheme://host/ prefix of the page` edge is removed (guard-cut); the stored link is the normalised absolute href of an anchor of the document; the function returns \"\" or the linkHref of a candidate. Q2 (PageNumber sources): every PageInfo.URL in the module is \"\", a copy of another PageInfo.URL, the current document's own URL (two reviewed sites in the detector), or - in getPageInfoAndText, by decision-path enumeration - the normalised href of an anchor that parsed, has the page's host and an http/https scheme; NextPagingURL fields only ever receive such URLs. Q3 (PageNumber sinks): PrevPage is stored only from a PageInfo.URL that is not the current page (normalised comparison) and NextPage only from NextPagingURL."
+	r.Explanation = "Q5: stringutil.UnescapedString, which renders the allowed prefix scheme://host/ and every compared URL, writes the scheme, host, path and query of its argument as they are (the trailing slash of the prefix is what excludes look-alike hosts). Sink sanitisation. Q1 (PrevNext): the only append to the candidate list is unreachable once the `ParseRequestURI(href) succeeded` edge or the `href has the scheme://host/ prefix of the page` edge is removed (guard-cut); the stored link is the normalised absolute href of an anchor of the document; the function returns \"\" or the linkHref of a candidate. Q2 (PageNumber sources): every PageInfo.URL in the module is \"\", a copy of another PageInfo.URL, the current document's own URL (two reviewed sites in the detector), or - in getPageInfoAndText, by decision-path enumeration - the normalised href of an anchor that parsed, has the page's host and an http/https scheme; NextPagingURL fields only ever receive such URLs. Q3 (PageNumber sinks): PrevPage is stored only from a PageInfo.URL that is not the current page (normalised comparison) and NextPage only from NextPagingURL."
 	r.NotCovered = "that the link is the right one (C17), host equality subtleties (ports, case) and what counts as the same site beyond scheme and host, the regular expressions scoring the links."
 
 	c := core.NewCanon(p)
@@ -229,7 +229,12 @@ func C16(p *core.Program, r *core.Report) {
 			return core.IsCallTo(ci, "(*"+paginationPkg+"/info.PageParamInfo).InsertFirstPage", "(*"+paginationPkg+"/info.PageParamInfo).CanInsertFirstPage")
 		}) {
 			v := c.Of(call.Common().Args[1])
-			r.Add("Q2", key+": the inserted first page is the unmodified document URL", p.Pos(call.Pos()), docURL[key] != "" && v == `strings.TrimSuffix(`+docURL[key]+`,"/")`, core.Callee(call).Name()+"(_, "+v+")")
+			// the document URL as it is, or rendered from a private copy of the parsed URL whose
+			// path (and nothing else) lost its trailing slash. Trimming the rendered string is not
+			// the same: it eats the slash a query or fragment ends with and yields a URL that is
+			// neither the document's nor any anchor's (defect repaired in the detector).
+			ok := docURL[key] != "" && (v == docURL[key] || isPathTrimmedCopy(c, call.Common().Args[1], strings.TrimSuffix(strings.TrimPrefix(docURL[key], "url.URL.String("), ")")))
+			r.Add("Q2", key+": the inserted first page is the document URL, at most without the trailing slash of its path", p.Pos(call.Pos()), ok, core.Callee(call).Name()+"(_, "+v+")")
 		}
 	}
 	// NextPagingURL only receives PageInfo URLs
@@ -249,6 +254,27 @@ func C16(p *core.Program, r *core.Report) {
 		}
 	}
 	r.Add("Q2", "writers of NextPagingURL examined", "", nNext >= 4, fmt.Sprintf("%d stores", nNext))
+
+	// ---- Q5: the same-site test of PrevNext compares with the rendering of scheme://host/ by
+	// UnescapedString: the trailing "/" of that prefix is what stops a look-alike host
+	// (example.com.evil.org, example.community). The renderer writes scheme, host, path and query
+	// of the URL it is given as they are.
+	if us := mustInl(p, r, "Q5", "mod/internal/stringutil.UnescapedString"); us != nil {
+		c5 := core.NewCanon(p)
+		written := map[string]bool{}
+		for _, call := range core.Calls(us, func(ci ssa.CallInstruction) bool { return core.IsCallTo(ci, "(*strings.Builder).WriteString") }) {
+			if a := call.Common().Args; len(a) == 2 {
+				written[c5.Of(a[1])] = true
+			}
+		}
+		var missing []string
+		for _, w := range []string{"$0.Scheme", "$0.Host", "$0.Path", "$0.RawQuery"} {
+			if !written[w] {
+				missing = append(missing, w)
+			}
+		}
+		r.Add("Q5", "UnescapedString writes scheme, host, path and query unmodified", p.Pos(us.Pos()), len(missing) == 0, fmt.Sprintf("parts not written as they are: %v (written: %v)", missing, sortedKeys(written)))
+	}
 
 	// ---- Q3
 	fp := mustInl(p, r, "Q3", "(*"+paginationPkg+".PageNumberFinder).FindPagination")
@@ -489,4 +515,69 @@ func allPhiLeaves(v ssa.Value, pred func(ssa.Value) bool, seen map[ssa.Value]boo
 		}
 	}
 	return pred(v)
+}
+
+// isPathTrimmedCopy: v is (*url.URL).String() of a local url.URL that was copied whole from the
+// URL rendered as `parsed` and in which only Path/RawPath were overwritten, each with
+// strings.TrimSuffix(<that field>, "/").
+func isPathTrimmedCopy(c *core.Canon, v ssa.Value, parsed string) bool {
+	call, ok := core.StripConv(v).(*ssa.Call)
+	if !ok || !core.IsCallTo(call, "(*net/url.URL).String") || len(call.Call.Args) != 1 {
+		return false
+	}
+	al, ok := call.Call.Args[0].(*ssa.Alloc)
+	if !ok || al.Referrers() == nil {
+		return false
+	}
+	copied := false
+	for _, ref := range *al.Referrers() {
+		switch x := ref.(type) {
+		case *ssa.Store:
+			if x.Addr != ssa.Value(al) {
+				return false
+			}
+			ld, isLd := x.Val.(*ssa.UnOp)
+			if !isLd || c.Of(ld.X) != parsed {
+				return false
+			}
+			copied = true
+		case *ssa.FieldAddr:
+			name := core.FieldNameOf(x)
+			if x.Referrers() == nil {
+				continue
+			}
+			for _, r2 := range *x.Referrers() {
+				st, isSt := r2.(*ssa.Store)
+				if !isSt {
+					continue // a load
+				}
+				if st.Addr != ssa.Value(x) || (name != "Path" && name != "RawPath") {
+					return false
+				}
+				ts, isCall := st.Val.(*ssa.Call)
+				if !isCall || !core.IsCallTo(ts, "strings.TrimSuffix") {
+					return false
+				}
+				if s, isC := core.ConstString(ts.Call.Args[1]); !isC || s != "/" {
+					return false
+				}
+				src, isLd := ts.Call.Args[0].(*ssa.UnOp)
+				if !isLd {
+					return false
+				}
+				fa, isFA := src.X.(*ssa.FieldAddr)
+				if !isFA || core.FieldNameOf(fa) != name || (fa.X != ssa.Value(al) && c.Of(fa.X) != parsed) {
+					return false
+				}
+			}
+		case *ssa.Call:
+			if !core.IsCallTo(x, "(*net/url.URL).String") {
+				return false
+			}
+		case *ssa.DebugRef:
+		default:
+			return false
+		}
+	}
+	return copied
 }
